@@ -393,10 +393,11 @@ class HOG(AbstractGene):
         if self.og is not None and self.og != self.hog_id:
             ids.append("og={}".format(self.og))
         if len(ids) == 0:
+            # a top-level group written without id has neither an id nor a parent to borrow one from
             n = self.parent
-            while n.hog_id is None and n.parent is not None:
+            while n is not None and n.hog_id is None and n.parent is not None:
                 n = n.parent
-            ids.append("id={}-{}".format(n.hog_id, self.__hash__()))
+            ids.append("id={}-{}".format(n.hog_id if n is not None else None, self.__hash__()))
         try:
             ids.append("level={}".format(self.genome.name))
         except AttributeError:
